@@ -189,19 +189,29 @@ def acc_rule(ctx: Ctx) -> None:
     m = ctx.model
     mem = m.cls("Memory")
     r = ctx.rule("R18.acc", "per-width accessor table")
+    from ..flowspec import signature
+
+    def acc_sig(sig):
+        # the text handed to UnsupportedFunctionError is not part of the rule: only that it is raised, and when
+        return sig[0], tuple((k, t.split("(")[0] if k == "raise" else t, c) for k, t, c in sig[1])
+
     for kind in ("read", "write"):
         for name, bits in (("byte", 8), ("halfword", 16), ("word", 32), ("doubleword", 64)):
             f = m.method(mem, f"{kind}_{name}", own=True)
-            s0 = f.params[0]
-            txt = " ".join(ast.unparse(f.node).split())
-            guard = f"if {s0}.memory_file_values_width > {bits}: raise UnsupportedFunctionError(" in txt
-            count = "1" if bits == 8 else f"{bits} // {s0}.memory_file_values_width"
-            if kind == "read":
-                body = f"return UInt{bits}({s0}._read_multiple({f.params[1]}, {count}))" in txt
-            else:
-                body = f"{s0}._write_multiple({f.params[1]}, {count}, int({f.params[2]}))" in txt
-            r.check(guard and body, f"Memory.{kind}_{name}", f.loc(), f"Memory.{kind}_{name} is no longer: reject cells wider than {bits} bits, "
-                    f"then {'compose' if kind == 'read' else 'decompose'} {count} cell(s)" + (f" into a UInt{bits}" if kind == "read" else ""))
+            ps = f.params
+            head = f"def {kind}_{name}({', '.join(ps)}):\n    if {ps[0]}.memory_file_values_width > {bits}:\n        raise UnsupportedFunctionError('x', {ps[0]}.addressing_type.name)\n"
+            counts = ["1", f"{bits} // {ps[0]}.memory_file_values_width"] if bits == 8 else [f"{bits} // {ps[0]}.memory_file_values_width"]
+            refs = []
+            for count in counts:
+                if kind == "read":
+                    refs.append(head + f"    return UInt{bits}({ps[0]}._read_multiple({ps[1]}, {count}))\n")
+                else:
+                    refs.append(head + f"    {ps[0]}._write_multiple({ps[1]}, {count}, int({ps[2]}))\n")
+            got = acc_sig(signature(m, f))
+            ok = any(acc_sig(signature(m, f, ref)) == got for ref in refs)
+            r.check(ok, f"Memory.{kind}_{name}", f.loc(), f"Memory.{kind}_{name} is no longer: reject cells wider than {bits} bits, "
+                    f"then {'compose' if kind == 'read' else 'decompose'} {counts[-1]} cell(s)" + (f" into a UInt{bits}" if kind == "read" else "")
+                    + f" (recovered: returns {list(got[0])}, effects {[e[1] for e in got[1]]})")
     r.floor(8)
 
 
